@@ -209,6 +209,24 @@ def h_forms(eng, op, u, v, form):
             _, plain2 = _run(lambda: f(ureg.Quantity(x2, u), y))
             _same(eng, plain2, ureg.Quantity(r.magnitude[1], r._units), f"{tag}[1]")
             dim_follows(r, tag)
+            if not form.startswith("inplace"):
+                eng.prove(And(Eq(arr.magnitude[0], x), Eq(arr.magnitude[1], x2), arr.units == ureg.Unit(u)), f"{tag}:left-untouched")
+                # asked again, the same expression gives the same answer
+                s2, again = _run(lambda: f(arr, y))
+                eng.prove(s2 == "ok", f"{tag}:again-same-kind-of-outcome")
+                if s2 == "ok":
+                    _same(eng, plain, ureg.Quantity(again.magnitude[0], again._units), f"{tag}:again[0]")
+        if not form.startswith("inplace") and op in ("add", "sub", "mul", "truediv"):
+            # the number on the left: element-wise the scalar reflected form; the array stays as it was
+            arr2 = ureg.Quantity(np.array([x, x2], dtype=object), u)
+            if op == "truediv":
+                eng.assume(And(Not(Eq(x, 0)), Not(Eq(x2, 0))))
+            s3, want = _run(lambda: f(y, ureg.Quantity(x, u)))
+            s4, r4 = _run(lambda: f(y, arr2))
+            eng.prove(s3 == s4, f"r{tag}:same-kind-of-outcome")
+            if s3 == "ok" and s4 == "ok":
+                _same(eng, want, ureg.Quantity(r4.magnitude[0], r4._units), f"r{tag}[0]")
+            eng.prove(And(Eq(arr2.magnitude[0], x), Eq(arr2.magnitude[1], x2), arr2.units == ureg.Unit(u)), f"r{tag}:array-untouched")
 
 
 def h_ipow(eng, u, k, form):
@@ -380,8 +398,31 @@ def h_cross_dimension(eng, op, u, v):
         f(a, b)
     except DimensionalityError:
         eng.prove(True, f"{op}:cross-dimension-raises")
+    else:
+        eng.fail(f"{op}:cross-dimension-accepted")
+    if op not in ("add", "sub", "floordiv", "mod"):
         return
-    eng.fail(f"{op}:cross-dimension-accepted")
+    # the in-place and array forms refuse as well -- whatever the magnitudes, zero included --
+    # and a refused in-place operation leaves its left operand as it was
+    import numpy as np
+
+    iop = getattr(operator, "i" + op)
+    x2 = eng.real("x2")
+    for tag, mk, fn in (
+        ("inplace-array", lambda: ureg.Quantity(np.array([x, x2], dtype=object), u), lambda l: iop(l, b)),
+        ("array", lambda: ureg.Quantity(np.array([x, x2], dtype=object), u), lambda l: f(l, b)),
+        ("inplace-array-array", lambda: ureg.Quantity(np.array([x, x2], dtype=object), u), lambda l: iop(l, ureg.Quantity(np.array([y, y], dtype=object), v))),
+        ("inplace-scalar", lambda: ureg.Quantity(x, u), lambda l: iop(l, b)),
+    ):
+        left = mk()
+        try:
+            fn(left)
+        except DimensionalityError:
+            eng.prove(True, f"{op}:{tag}:cross-dimension-raises")
+        else:
+            eng.fail(f"{op}:{tag}:cross-dimension-accepted")
+        m0 = left.magnitude[0] if tag != "inplace-scalar" else left.magnitude
+        eng.prove(And(Eq(m0, x), left.units == ureg.Unit(u)), f"{op}:{tag}:left-untouched-after-refusal")
 
 
 MIN_DISCHARGED = {"H03.a": 600, "H03.b": 200, "H03.c": 60}
